@@ -306,3 +306,8 @@ pub fn replay(case: &Value) -> Vec<Violation> {
     with_curve!(case.st.curve, G, run_case::<G>(0, &case, &mut st));
     st.violations
 }
+
+pub fn shrink(case: &Value) -> Vec<Value> {
+    let Ok(c) = serde_json::from_value::<Case>(case.clone()) else { return vec![] };
+    crate::shrink::shrink_statement(&c.st).into_iter().map(|(s, _)| to_value(&Case { st: s, missing: c.missing, full: c.full, ext_seed: c.ext_seed })).collect()
+}
